@@ -996,3 +996,37 @@ def gen_matrix_closure_spec(rng):
     for t, ps in spec['patterns'].items():
         spec['weights'][t] = A_.densify(ps)[0]
     return spec
+
+
+def gen_chain_spec(rng, wdomain='real'):
+    """A path automaton of 5-9 states: S -> init(q) X(q); X(q) -> T(q,r) X(r) | stop(q), with T a (slightly noisy) shift and
+    `stop` non-zero only near the end: the support of X has to propagate through as many sweeps as there are states --
+    many more than the grammar has nonterminals."""
+    n = rng.randint(5, 9)
+    T = [[0.0] * n for _ in range(n)]
+    for i in range(n - 1):
+        T[i][i + 1] = rng.choice([0.5, 0.4, 0.6])
+    for _ in range(rng.choice([0, 1, 2])):
+        i, j = rng.randrange(n), rng.randrange(n)
+        if j <= i:                       # backward / self transitions only: the shortest accepting path stays long
+            T[i][j] = rng.choice([0.1, 0.2])
+    stop = [0.0] * n
+    stop[n - 1] = rng.choice([0.5, 1.0])
+    init = [0.0] * n
+    init[0] = 1.0
+    two = rng.random() < 0.4
+    nts = {'S': [], 'X': ['L0']}
+    rules = [dict(lhs='S', nodes=['L0'], ext=[], edges=[['init', [0]], ['X', [0]]]),
+             dict(lhs='X', nodes=['L0'], ext=[0], edges=[['stop', [0]]])]
+    if two:
+        nts['Y'] = ['L0']
+        rules.append(dict(lhs='X', nodes=['L0', 'L0'], ext=[0], edges=[['T', [0, 1]], ['Y', [1]]]))
+        rules.append(dict(lhs='Y', nodes=['L0'], ext=[0], edges=[['X', [0]]]))
+    else:
+        rules.append(dict(lhs='X', nodes=['L0', 'L0'], ext=[0], edges=[['T', [0, 1]], ['X', [1]]] if rng.random() < 0.5 else [['X', [1]], ['T', [0, 1]]]))
+    rng.shuffle(rules)
+    weights = {'T': T, 'stop': stop, 'init': init}
+    if wdomain == 'log':
+        weights = {t: map_nested(w, lambda x: math.log(x) if x > 0 else -math.inf) for t, w in weights.items()}
+    return dict(domains={'L0': n}, terminals={'T': ['L0', 'L0'], 'stop': ['L0'], 'init': ['L0']}, nonterminals=nts, start='S',
+                rules=rules, weights=weights, wdomain=wdomain)
